@@ -3,6 +3,7 @@ CONSTANTS
   Recs = {1, 2}
   Obs = {1, 2}
   Vals = {0, 1, 2}
+  Extra = {"g", "h", "k"}
   Dev = "none"
 CONSTRAINT HW
 INVARIANTS GetReflectsCurrent
